@@ -310,9 +310,18 @@ def handlersOk (md : Module) (hm : HMap) : Bool :=
   (md.exctab.toList.take md.excCount).all fun e =>
     handlerEntry md e.handler && (match hm[e.handler]? with | some (some _) => true | _ => false)
 
+/-- every function entry (`FUNC_DEF`) was reached with the empty frame: height 0 above its parameters -/
+def startsOk (starts : List Nat) (hm : HMap) : Bool :=
+  starts.all fun a => match hm[a]? with | some (some s) => s.h == 0 | _ => false
+
+/-- address 0 (where the first `nev_execute` starts, with an empty stack) was reached with nothing on the stack -/
+def entryOk (md : Module) (starts : List Nat) (hm : HMap) : Bool :=
+  match hm[0]? with | some (some s) => npAt md starts 0 + s.h == 0 | _ => false
+
 def flowOk (md : Module) (hm : HMap) : Bool :=
   let starts := funcStarts md
-  (List.range md.code.size).all (fun a => flowOkAt md hm a && frameOkAt md starts hm a) && handlersOk md hm
+  (List.range md.code.size).all (fun a => flowOkAt md hm a && frameOkAt md starts hm a) && handlersOk md hm && startsOk starts hm &&
+  entryOk md starts hm
 
 /-- the verifier proper: summary and the height map (one abstract state per reached address) -/
 def verifyCore (md : Module) : Except String (Summary × HMap) := do
